@@ -143,6 +143,33 @@ fn fam_cfg(ctx: &mut Ctx, f: &Fam) -> (Vec<u64>, u64) {
     }
 }
 
+/// a configuration that shares a derived quantity with `cfg` (the same number of cells / slots / fingerprint
+/// bits split differently, one dimension changed): what an allocation-reusing `clone_from` may confuse
+fn fam_cfg_sibling(ctx: &mut Ctx, f: &Fam, cfg: &[u64]) -> Vec<u64> {
+    match f.name {
+        "bloom" => {
+            if ctx.rng.chance(1, 2) { vec![cfg[0], cfg[1] % 5 + 1] } else { vec![cfg[0] + ctx.rng.range(1, 64), cfg[1]] }
+        }
+        "cms" => {
+            let (w, d) = (cfg[0], cfg[1]);
+            match ctx.rng.below(4) {
+                0 | 1 if w != d => vec![d, w],
+                2 => vec![w * d, 1],
+                _ => if w % 2 == 0 { vec![w / 2, d * 2] } else { vec![w * 2, (d / 2).max(1)] },
+            }
+        }
+        "hll" => vec![if cfg[0] >= 18 || (cfg[0] > 4 && ctx.rng.chance(1, 2)) { cfg[0] - 1 } else { cfg[0] + 1 }],
+        "qf" => {
+            let (q, r) = (cfg[0], cfg[1]);
+            if r > 1 && ctx.rng.chance(1, 2) { vec![q + 1, r - 1] } else if q > 1 && q + r < 64 { vec![q - 1, r + 1] } else { vec![q, (r % 6) + 1] }
+        }
+        _ => {
+            let (bs, nb, lf) = (cfg[0], cfg[1], cfg[2]);
+            if nb >= 4 && ctx.rng.chance(1, 2) { vec![bs * 2, nb / 2, lf] } else { vec![bs, nb, *ctx.rng.pick(&[2u64, 5, 8, 13, 32])] }
+        }
+    }
+}
+
 /// feeds the keys; returns the keys whose insert/add succeeded (a failed insert is a no-op, C12)
 fn feed_ok(ctx: &mut Ctx, f: &Fam, id: u64, keys: &[u64]) -> Vec<u64> {
     let mut okk = vec![];
@@ -439,6 +466,150 @@ fn unchanged_check(ctx: &mut Ctx, st: &str, i: u64, j: u64, univ: &[u64]) {
 /// A failing insert, then deletions, then further failing inserts / a failing union without any
 /// successful insert in between: whatever a failed call leaves behind internally (an undo log,
 /// scratch state) must not leak into the next failure's rollback.
+/// A successful union (no successful insert afterwards) directly followed by a failing insert or union:
+/// whatever the successful call left behind (an undo log, a backup, a cached flag) must not be replayed
+/// by the failing one.  The table is filled to the first failure, some elements are deleted, a union
+/// with a filter holding at most that many elements refills it, and the next call fails.
+fn c12_success_then_fail(ctx: &mut Ctx, round: u64) {
+    ctx.case("c12.cuckoo.okfail");
+    let bh = ctx.rand_hasher();
+    ctx.hasher(bh);
+    let c = match round % 3 {
+        0 => CuckooCfg { bs: *ctx.rng.pick(&[2u64, 4]), nb: *ctx.rng.pick(&[2u64, 4]), lf: *ctx.rng.pick(&[3u64, 8, 16]) },
+        _ => cuckoo_cfg(ctx),
+    };
+    let cap = c.bs * c.nb;
+    cuckoo_new(ctx, 1, &c);
+    cuckoo_new(ctx, 2, &c);
+    cuckoo_new(ctx, 3, &c);
+    let keys = Keys::new(ctx, 4 * cap + 6);
+    let mut held: Vec<u64> = vec![];
+    let mut guard = 0;
+    let mut failed = false;
+    while guard < 8 * cap + 40 {
+        guard += 1;
+        let k = keys.pick(ctx);
+        let a = ctx.op(format!("cuckoo.insert 1 {}", k));
+        if a == "true" {
+            held.push(k);
+        } else if a == "full" {
+            failed = true;
+            break;
+        }
+    }
+    if failed && !held.is_empty() {
+        for _step in 0..3 {
+            let nd = ctx.rng.range(1, 3.min(held.len() as u64).max(1));
+            let mut dels = 0;
+            for _ in 0..nd {
+                if held.is_empty() {
+                    break;
+                }
+                let idx = ctx.rng.below(held.len() as u64) as usize;
+                if ctx.op(format!("cuckoo.delete 1 {}", held[idx])) == "true" {
+                    held.remove(idx);
+                    dels += 1;
+                }
+            }
+            // B holds at most `dels` elements, so the union has room
+            ctx.op("cuckoo.clear 2".into());
+            let mut inb = vec![];
+            for _ in 0..dels {
+                let kk = keys.pick(ctx);
+                if ctx.op(format!("cuckoo.insert 2 {}", kk)) == "true" {
+                    inb.push(kk);
+                }
+            }
+            let a = ctx.op("cuckoo.union 1 2".into());
+            if a != "ok" {
+                continue;
+            }
+            held.extend(inb);
+            ctx.stat("c12.okfail.union.ok", 1);
+            // directly afterwards: calls that fail (an insert of a fresh key, or a union with a loaded filter)
+            for _try in 0..4 {
+                ctx.op("cuckoo.clone 1 9".into());
+                let a = if ctx.rng.chance(1, 3) {
+                    for _ in 0..(cap / 2 + 1) {
+                        let kk = keys.pick(ctx);
+                        ctx.op(format!("cuckoo.insert 3 {}", kk));
+                    }
+                    ctx.op("cuckoo.union 1 3".into())
+                } else {
+                    let kk = keys.pick(ctx);
+                    let a = ctx.op(format!("cuckoo.insert 1 {}", kk));
+                    if a == "true" {
+                        held.push(kk);
+                    }
+                    a
+                };
+                if a == "full" {
+                    ctx.stat("c12.okfail.then.full", 1);
+                    unchanged_check(ctx, "cuckoo", 1, 9, &keys.univ);
+                    break;
+                } else {
+                    break; // a success ends the stretch this case is about
+                }
+            }
+        }
+    }
+    // quotient filter: union that exactly fills the table, then a failing insert / union
+    ctx.case("c12.qf.okfail");
+    ctx.hasher(ScriptBH::xor());
+    let (q, r) = (ctx.rng.range(1, 4), ctx.rng.range(1, 5));
+    let cap = 1u64 << q;
+    for i in 1..=3 {
+        ctx.op(format!("qf.new {} {} {}", i, q, r));
+    }
+    let mut univ = vec![];
+    for _ in 0..(3 * cap + 3) {
+        let quo = ctx.rng.below(cap);
+        let rem = ctx.rng.below(1u64 << r.min(3));
+        univ.push(qf_key(ctx, q, r, quo, rem));
+    }
+    let na = ctx.rng.below(cap);
+    for _ in 0..na {
+        let k = *ctx.rng.pick(&univ);
+        ctx.op(format!("qf.insert 1 {}", k));
+    }
+    // B = enough further classes to fill A up
+    let mut guard = 0;
+    loop {
+        guard += 1;
+        let la: u64 = ctx.op("qf.len 1".into()).parse().unwrap_or(cap);
+        ctx.op("qf.clone 1 4".into());
+        let u = ctx.op("qf.union 4 2".into());
+        let l4: u64 = ctx.op("qf.len 4".into()).parse().unwrap_or(cap);
+        if u != "ok" || l4 >= cap || guard > 6 * cap || la >= cap {
+            break;
+        }
+        let k = *ctx.rng.pick(&univ);
+        ctx.op(format!("qf.insert 2 {}", k));
+    }
+    let a = ctx.op("qf.union 1 2".into());
+    if a == "ok" {
+        ctx.stat("c12.okfail.qf.union.ok", 1);
+        for _try in 0..3 {
+            ctx.op("qf.clone 1 9".into());
+            let a = if ctx.rng.chance(1, 3) {
+                for _ in 0..cap {
+                    let k = *ctx.rng.pick(&univ);
+                    ctx.op(format!("qf.insert 3 {}", k));
+                }
+                ctx.op("qf.union 1 3".into())
+            } else {
+                let k = *ctx.rng.pick(&univ);
+                ctx.op(format!("qf.insert 1 {}", k))
+            };
+            if a == "full" {
+                ctx.stat("c12.okfail.qf.then.full", 1);
+                unchanged_check(ctx, "qf", 1, 9, &univ);
+                break;
+            }
+        }
+    }
+}
+
 fn c12_cuckoo_fail_delete_fail(ctx: &mut Ctx, round: u64) {
     ctx.case("c12.cuckoo.fdf");
     let bh = ctx.rand_hasher();
@@ -599,6 +770,8 @@ pub fn gen_c12(ctx: &mut Ctx) {
         }
         // ---- cuckoo: failure, deletions, failure again (no successful insert in between) ---
         c12_cuckoo_fail_delete_fail(ctx, round);
+        // ---- cuckoo / quotient: a SUCCESSFUL union (or delete, clear) directly followed by a failing call
+        c12_success_then_fail(ctx, round);
         // ---- cuckoo: failing union at first / middle / last transferred fingerprint -------
         ctx.case("c12.cuckoo.union");
         let bh = ctx.rand_hasher();
@@ -1092,7 +1265,14 @@ pub fn gen_c19(ctx: &mut Ctx) {
             // the receiver of clone_from: another configuration (half of the time), another hasher
             let bh2 = if ctx.rng.chance(2, 3) { ctx.rand_hasher() } else { bh };
             ctx.hasher(bh2);
-            let cfg2 = if ctx.rng.chance(1, 2) { fam_cfg(ctx, f).0 } else { cfg.clone() };
+            let cfg2 = match ctx.rng.below(3) {
+                0 => fam_cfg(ctx, f).0,
+                1 => cfg.clone(),
+                _ => {
+                    ctx.stat("c19.clonefrom.sibling", 1);
+                    fam_cfg_sibling(ctx, f, &cfg)
+                }
+            };
             fam_new(ctx, f, 7, &cfg2);
             ctx.hasher(bh);
             let other = stream(ctx, &keys.univ, 3);
